@@ -13,6 +13,7 @@ from ginverif import core
 # text the parser rejects / text the tokenizer itself rejects (raised while the *next* statement is being fetched)
 SYNTAX_TEXTS = ['f.p = ]', "'''unterminated", 'f.p =', "'oops.x = 4", 'f..p = 1', '0bad.x = 4', 'f.p = [1', 'f.p = "abc', 'f.p = 1 2',
                 'f.p = 1_', 'f.p == 1', "f.p = b'\u00e9'", 'f.p = {1:}', 'f.p = 0777', 'f/ p.q = 1', 'f.p = 1 +', 'g: 1', 'f.p = $']
+FIRST_TOKEN_FAULTS = ['0bad.x = 4', "'oops.x = 4", "'''unterminated", '$f.p = 1', '"""', '1_.x = 2']
 _STATE = {}
 
 
@@ -73,7 +74,11 @@ def render(doc, salt, pkgname=None):
     elif t == 'include':
       lines.append("include '%s.gin'" % (pkgname + '/p' if (s['file'] == 'p' and pkgname) else s['file']))
     elif t == 'syntax':
-      lines.append(SYNTAX_TEXTS[(salt + i) % len(SYNTAX_TEXTS)])
+      if i > 0 and doc[i - 1]['t'] in ('block', 'bind', 'macro') and salt % 2 == 0:
+        # the fault is the very first token of the line that follows a complete statement
+        lines.append(FIRST_TOKEN_FAULTS[(salt // 2 + i) % len(FIRST_TOKEN_FAULTS)])
+      else:
+        lines.append(SYNTAX_TEXTS[(salt + i) % len(SYNTAX_TEXTS)])
     else:
       raise AssertionError(t)
   return '\n'.join(lines) + '\n'
